@@ -27,7 +27,10 @@ TECHNIQUE = "bounded exhaustive enumeration of (variable age, binding sequence, 
 RULE = ("clauses t(A,B,O) :- Pre, Construct(Inner), Observe: 5 Pre shapes (no local; a permanent stack variable; a heap "
         "variable at hb-1; two at hb-2/hb-1; both kinds), Inner = every sequence of <=2 (quick) / <=3 over a reduced "
         "alphabet (thorough) updates from {T=1, T=f(T'), T=T', T=\"ab\", bb_b_put, bb_put, put_atts(T)} over the "
-        "variables in scope, 10 undoing constructs, queries t(A,B,O) and t(A,A,O). A case is one (program, query). "
+        "variables in scope, 10 undoing constructs, queries t(A,B,O) and t(A,A,O); family G: two global keys that "
+        "already hold a bb_put, bb_b_put, bb_put+bb_b_put or twice-bb_b_put value before the choice point, then every "
+        "sequence of <=2 (quick) / <=3 (thorough) of {bb_b_put, bb_put, bb_get on either key, A=1} inside each construct, "
+        "heap allocation after it, bb_get of both keys. A case is one (program, query). "
         "Non-trivial: Inner binds or attributes a variable that is older than the choice point of the construct "
         "(it must be trailed), or updates a global variable.")
 LEVEL_TEXT = ("exhaustive within the stated bound on binding sequences and variable ages, including the trail "
@@ -57,8 +60,8 @@ PRES = [
 
 def bound_text(tier):
     if tier == "thorough":
-        return "5 Pre shapes x 10 constructs x all update sequences <=2, and <=3 over the reduced alphabet"
-    return "5 Pre shapes x 10 constructs x all update sequences <=2 (full alphabet <=1, reduced alphabet for 2)"
+        return "5 Pre shapes x 10 constructs x all update sequences <=2, and <=3 over the reduced alphabet; G: 8 pre-states x sequences <=3 x 10 constructs"
+    return "5 Pre shapes x 10 constructs x all update sequences <=2 (full alphabet <=1, reduced alphabet for 2); G: 8 pre-states x sequences <=2 x 10 constructs"
 
 
 def updates(targets, full):
@@ -132,6 +135,43 @@ def seqs(targets, tier):
 
 QUERIES = [("t", A, B, O), ("t", A, A, O)]
 
+# family G: global variables that already hold a value (backtrackable or not) before the
+# choice point, updated again on the same key (and on a second key) inside the undone goal
+G_PRE1 = [("put", [("bb_put", "k1", 0)]), ("bput", [("bb_b_put", "k1", 0)]),
+          ("put+bput", [("bb_put", "k1", 7), ("bb_b_put", "k1", 0)]),
+          ("bput2", [("bb_b_put", "k1", 0), ("bb_b_put", "k1", 5)])]
+G_PRE2 = [("put", [("bb_put", "k2", 0)]), ("bput", [("bb_b_put", "k2", 0)])]
+G_UPD = [("bb_b_put", "k1", 1), ("bb_b_put", "k1", ("f", A)), ("bb_put", "k1", 3), ("bb_get", "k1", V("_W")),
+         ("bb_b_put", "k2", 1), ("bb_put", "k2", 3), ("=", A, 1)]
+
+
+def g_seq_ok(seq):
+    """a bb_put after a bb_b_put on the same key inside the undone goal is implementation specific"""
+    bput = set()
+    for u in seq:
+        if u[0] == "bb_b_put":
+            bput.add(u[1])
+        elif u[0] == "bb_put" and u[1] in bput:
+            return False
+    return True
+
+
+def g_programs(tier):
+    Zv, V1, V2 = V("Z"), V("V1"), V("V2")
+    lens = (1, 2, 3) if tier == "thorough" else (1, 2)
+    for n1, p1 in G_PRE1:
+        for n2, p2 in G_PRE2:
+            for n in lens:
+                for inner in itertools.product(G_UPD, repeat=n):
+                    inner = list(inner)
+                    if not g_seq_ok(inner):
+                        continue
+                    for cname, cgoal in constructs(inner):
+                        body = S.conj(p1 + p2 + [cgoal, ("=", Zv, ("h", 1, 2, 3)), ("bb_get", "k1", V1),
+                                                 ("bb_get", "k2", V2), ("=", O, ("o", V1, V2, A, Zv))])
+                        yield {"pre": "G:%s/%s" % (n1, n2), "construct": cname,
+                               "clauses": [(":-", ("t", A, B, O), body)], "inner": inner, "targets": [A]}
+
 
 def programs(pre_i, tier):
     name, pre, targets = PRES[pre_i]
@@ -145,7 +185,8 @@ def programs(pre_i, tier):
 
 def shards(tier):
     m = 24 if tier == "thorough" else 4
-    return [("P", i, k, m) for i in range(len(PRES)) for k in range(m)]
+    mg = 16 if tier == "thorough" else 4
+    return [("P", i, k, m) for i in range(len(PRES)) for k in range(m)] + [("G", 0, k, mg) for k in range(mg)]
 
 
 def setup(w, tier):
@@ -239,7 +280,8 @@ def run_shard(w, shard, tier):
     w.new_machine()
     _, pre_i, k, m = shard
     n = 0
-    gen = (p for i, p in enumerate(programs(pre_i, tier)) if i % m == k)
+    src = g_programs(tier) if shard[0] == "G" else programs(pre_i, tier)
+    gen = (p for i, p in enumerate(src) if i % m == k)
     for batch in px.chunked(gen, BATCH):
         run_batch(w, base, batch, acc, n)
         n += len(batch)
